@@ -806,6 +806,9 @@ def run(repo, check):
     check.run_rule(rule_r7, repo)
     check.run_rule(rule_r8, repo)
     check.run_rule(rule_r9, repo, check.tier)
+    from sa.rules import c07
+    from sa.rules.common import share
+    share(check, repo, c07.rule_r2, 'C01.R10', 'the bitmap designates the descriptors whose width and scale the marker values are decoded with (shared with C07.R2)')
     check.assumptions = ['bitstring reads the requested number of bits MSB first (trusted base)',
                          'Table B contents (width, scale, reference of each element) are data, not decided here',
                          'the frozen operator table (DESIGN appendix A.3) restates FM-94 regulation 94.5.3 / Table C']
